@@ -392,6 +392,11 @@ def c01(c):
     quick = c.tier == "quick"
     c.small("MC_Proofs", cfg="MC_Proofs_honest.cfg" if quick else "MC_Proofs_n3.cfg", timeout=7200)
     c.small("MC_Proofs", cfg="MC_Proofs_denidx.cfg", expect_violation=True)
+    # "on any CPU count", for ALL n and W: the worker batches cover every opening exactly once (inductive invariant, Apalache)
+    c.apalache("GroupSplitInd", [("Init => IndInv", ["--cinit=CInit", "--init=Init", "--inv=IndInv", "--length=0"], False),
+                                 ("IndInv /\\ Next => IndInv'", ["--cinit=CInit", "--init=IndInit", "--inv=IndInv", "--length=1"], False),
+                                 ("IndInv => Safe", ["--cinit=CInit", "--init=IndInit", "--inv=Safe", "--length=0"], False),
+                                 ("mutant (batch size rounded down) refuted", ["--cinit=CInitMut", "--init=Init", "--inv=Safe", "--length=4"], True)])
     files = mp_runs(c, "mp_honest", [(vlib.NCPU, "")])
     files += mp_runs(c, "mp_cpu", [(1, ""), (3, ""), (5, "2")] if quick else [(k, "") for k in (1, 2, 3, 4, 5, 7, 8, 11, 13)] + [(5, "2"), (16, "1"), (16, "4")])
     files += mp_runs(c, "mp_arrival", [(vlib.NCPU, "")] if quick else [(vlib.NCPU, ""), (4, ""), (7, "")])
